@@ -89,8 +89,9 @@ def _indent_of(line):
 
 class FnSpec:
     def __init__(self, name, file, impl=None, nth=0, ret=None, requires=(), ensures=(), decreases=None,
-                 loops=None, proofs=(), rules=(), attrs=(), sig_sub=(), self_ty=None, opens_impl=None, body_sub=()):
+                 loops=None, proofs=(), rules=(), attrs=(), sig_sub=(), self_ty=None, opens_impl=None, body_sub=(), label=None):
         self.name = name
+        self.label = label or name   # unique within the unit: used in obligation names and tags
         self.file = file
         self.impl = impl            # regex of the impl header, or None for a free fn
         self.nth = nth
@@ -166,11 +167,11 @@ def annotate_fn(fs, text, negctl=False):
             if kw in groups:
                 ins += '\n%s%s' % (ind, kw)
                 for tag, clause in groups[kw]:
-                    ins += '\n%s    %s, %s%s:%s' % (ind, clause, TAG, fs.name, tag)
-                    info['clauses'].append('%s:%s' % (fs.name, tag))
+                    ins += '\n%s    %s, %s%s:%s' % (ind, clause, TAG, fs.label, tag)
+                    info['clauses'].append('%s:%s' % (fs.label, tag))
         if ann and ann.get('decreases'):
-            ins += '\n%s decreases %s, %s%s:loop%d:decreases' % (ind, ann['decreases'], TAG, fs.name, k)
-            info['clauses'].append('%s:loop%d:decreases' % (fs.name, k))
+            ins += '\n%s decreases %s, %s%s:loop%d:decreases' % (ind, ann['decreases'], TAG, fs.label, k)
+            info['clauses'].append('%s:loop%d:decreases' % (fs.label, k))
         if ins:
             ins += '\n' + ind[:-4]
             inserts.append((lp['open'], ins))
@@ -181,12 +182,12 @@ def annotate_fn(fs, text, negctl=False):
                 raise Lost("fn %s: cannot parse for-loop header %r" % (fs.name, hdr))
             inserts.append((lp['start'] + mm.end(), '%s: ' % ann['iter_name']))
         if negctl and ann is not None:
-            inserts.append((lp['open'] + 1, ' assert(false); %s%s:loop%d:negctl' % (TAG, fs.name, k) + '\n'))
+            inserts.append((lp['open'] + 1, ' assert(false); %s%s:loop%d:negctl' % (TAG, fs.label, k) + '\n'))
 
     # --- proof blocks (anchored on lines of the body)
     for pi, pr in enumerate(fs.proofs):
         if pr.get('at') == 'body_start':
-            block = ''.join('\n        %s %sproof%d' % (ln, TAG + fs.name + ':', pi) for ln in pr['text'].strip('\n').split('\n'))
+            block = ''.join('\n        %s %sproof%d' % (ln, TAG + fs.label + ':', pi) for ln in pr['text'].strip('\n').split('\n'))
             inserts.append((open_b + 1, block))
             continue
         rx = pr.get('after') or pr.get('before')
@@ -201,12 +202,12 @@ def annotate_fn(fs, text, negctl=False):
             ind = _indent_of(text[text.rfind('\n', 0, open_b + m.start()) + 1:open_b + m.end()])
             if pr.get('indent'):
                 ind += '    '
-            block = ''.join('\n%s%s %sproof%d' % (ind, ln, TAG + fs.name + ':', pi) for ln in pr['text'].strip('\n').split('\n'))
+            block = ''.join('\n%s%s %sproof%d' % (ind, ln, TAG + fs.label + ':', pi) for ln in pr['text'].strip('\n').split('\n'))
             inserts.append((pos, block))
         else:
             ls = text.rfind('\n', 0, open_b + m.start()) + 1
             ind = _indent_of(text[ls:open_b + m.end()])
-            block = ''.join('%s%s %sproof%d\n' % (ind, ln, TAG + fs.name + ':', pi) for ln in pr['text'].strip('\n').split('\n'))
+            block = ''.join('%s%s %sproof%d\n' % (ind, ln, TAG + fs.label + ':', pi) for ln in pr['text'].strip('\n').split('\n'))
             inserts.append((ls, block))
 
     # --- signature
@@ -231,17 +232,17 @@ def annotate_fn(fs, text, negctl=False):
     if req:
         clauses += '\n    requires'
         for j, c in enumerate(req):
-            clauses += '\n        %s, %s%s:requires:%d' % (c, TAG, fs.name, j)
+            clauses += '\n        %s, %s%s:requires:%d' % (c, TAG, fs.label, j)
     if ens:
         clauses += '\n    ensures'
         for j, c in enumerate(ens):
             tag = 'negctl' if (negctl and j == len(ens) - 1) else 'ensures:%d' % j
-            clauses += '\n        %s, %s%s:%s' % (c, TAG, fs.name, tag)
+            clauses += '\n        %s, %s%s:%s' % (c, TAG, fs.label, tag)
             if tag != 'negctl':
-                info['clauses'].append('%s:%s' % (fs.name, tag))
+                info['clauses'].append('%s:%s' % (fs.label, tag))
     if fs.decreases:
-        clauses += '\n    decreases %s, %s%s:decreases' % (fs.decreases, TAG, fs.name)
-        info['clauses'].append('%s:decreases' % fs.name)
+        clauses += '\n    decreases %s, %s%s:decreases' % (fs.decreases, TAG, fs.label)
+        info['clauses'].append('%s:decreases' % fs.label)
     new_sig = new_sig + clauses + '\n'
 
     # apply inserts to the body part (positions are in `text`; all are >= open_b)
@@ -290,9 +291,12 @@ def build_unit(unit, repo_dir, negctl=False):
         start_line = ''.join(parts).count('\n') + 1
         parts.append(txt + '\n\n')
         end_line = ''.join(parts).count('\n')
-        meta['fns'][fs.name + ('#%d' % fs.nth if fs.nth else '')] = dict(gen=(start_line, end_line), file=fs.file, line=line, nlines=real.count('\n') + 1, loops=info['loops'])
+        key = fs.label + ('#%d' % fs.nth if fs.nth else '')
+        if key in meta['fns']:
+            raise Lost('duplicate function label %s in unit %s' % (key, unit.name))
+        meta['fns'][key] = dict(gen=(start_line, end_line), file=fs.file, line=line, nlines=real.count('\n') + 1, loops=info['loops'], fn=fs.name)
         meta['clauses'] += info['clauses']
-        meta['rules'] += [(fs.name, r, n) for r, n in info['rules']]
+        meta['rules'] += [(fs.label, r, n) for r, n in info['rules']]
     if cur_impl is not None:
         parts.append('}\n')
     parts.append('} // verus!\nfn main() {}\n')
